@@ -262,4 +262,10 @@ def run(P, R, tier):
     # behind fires on the stale record and emits a second verdict
     disp = c19.cleanup_callers(P, R, 'C01.WMC.2')
     c19.dispose_guards(P, R, disp, 'C01.WMC.2')
+    # ... and the request's own cleanup frees the timer the request was given, whatever the configuration says by then
+    from . import c10
+    cl10 = c10.cleanup_fn(P, Remap(R, {'C10.MPT.1': 'C01.TMR.1', 'C10.WIRE.1': 'C01.TMR.1'}))
+    c10.timer_lifecycle(P, Remap(R, {'C10.WMC.2': 'C01.TMR.1'}), cl10)
+    # hurry-up ORs the required flags INTO the request's word: the primitive must be safe when the destination is an operand
+    rules.bitset_primitives(P, R, 'C01.TAB.2')
     return EXPLANATION, ASSUMPTIONS, {'verdict_functions': sorted(V)}
